@@ -17,6 +17,14 @@
 
    and the census side of a connection's life, server.go:
      ServeHTTP (auth accepted)  LogOnlineState(id, true)         : EAuth
+     ServeHTTP (a further auth request on a connection that is already authenticated - stock clients
+                send one, a raw HTTP/3 client may send several, also concurrently)
+                                h.authMutex spans the whole auth handler: the check of
+                                h.authenticated, the Authenticator call and the success branch are ONE
+                                atomic section per request, so of the requests in flight on one
+                                connection exactly the first to take the mutex authenticates (EAuth); every
+                                other one finds authenticated = true, answers StatusAuthOK and notifies
+                                nobody                             : EAuthAgain
      handleClient               ServeQUICConn returns only when the QUIC connection is closed;
                                 then LogOnlineState(id, false)   : EHandlerReturn
 
@@ -98,6 +106,8 @@ Definition unlist_conn (c : conn) : conn := mkConn (c_id c) (c_open c) false.
 
 Inductive wevent :=
 | EAuth (i : id)                                             (* new connection, slot = length conns *)
+| EAuthAgain (slot : nat) (i : id)                           (* another auth request on connection slot, which the
+                                                                Authenticator would accept as user i *)
 | EReport (slot : nat) (st : site) (n : N) (other_first : bool)
 | EClientClose (slot : nat)                                  (* closed by the client / the network *)
 | EHandlerReturn (slot : nat)
@@ -113,6 +123,12 @@ Definition wstep (secret : string) (w : world) (e : wevent) : world * wresp :=
   match e with
   | EAuth i =>
       (mkWorld (fst (do_online (logger w) i true)) (conns w ++ [mkConn i true true]), WUnit)
+  | EAuthAgain slot i =>
+      (* "Already authenticated": no LogOnlineState, authID unchanged, no second connection *)
+      match nth_error (conns w) slot with
+      | Some c => if c_open c then (w, WUnit) else (w, WNone)
+      | None => (w, WNone)
+      end
   | EReport slot st n other_first =>
       match nth_error (conns w) slot with
       | Some c =>
@@ -143,6 +159,16 @@ Definition wstep (secret : string) (w : world) (e : wevent) : world * wresp :=
       end
   | EHttp r =>
       let (s', h) := http_step secret (logger w) r in (mkWorld s' (conns w), WHttp (fst h) (snd h))
+  end.
+
+(* Variant (NOT the code): authMutex wraps only the two stores, so the check and the success branch of
+   two requests in flight on one connection interleave - the second request passed the check before
+   the first stored the flag, and runs the success branch as well: LogOnlineState(id, true) once more
+   for a connection that will be reported offline once.  props/C15.v states what that breaks. *)
+Definition auth_again_unlocked (w : world) (slot : nat) : world :=
+  match nth_error (conns w) slot with
+  | Some c => mkWorld (fst (do_online (logger w) (c_id c) true)) (conns w)
+  | None => w
   end.
 
 Fixpoint wrun (secret : string) (w : world) (l : list wevent) : world :=
